@@ -42,7 +42,8 @@ def splitParasAux : Str → Str → Nat → List Str
     else splitParasAux cs (c :: (if p == 1 then '\n' :: cur else cur)) 0
 
 /-- `split_paragraphs(text) = [p.strip() for p in re.split(r"\n{2,}", text)]` -/
-def splitParagraphs (text : Str) : List Str := (splitParasAux text [] 0).map strip
+def splitParagraphs (text : Str) : List Str :=
+  ((splitParasAux text [] 0).map strip).filter fun p => !p.isEmpty
 
 /-- `wrap_paragraph_lines` with the `replace_whitespace` switch (`drop_whitespace=True`). -/
 def wrapLinesRW (split : Str → List Word) (text : Str) (W : Int) (c0 c1 : Nat) (md rw : Bool) :
